@@ -285,6 +285,10 @@ class FileProxy:
             self._real.__exit__(et, ev, tb)
             self._lose_unflushed()
             raise
+        except BaseException as intr:
+            # an interrupt delivered as the body ends: the with statement still runs the real __exit__, with the interrupt
+            self._real.__exit__(type(intr), intr, intr.__traceback__)
+            raise
         return self._real.__exit__(et, ev, tb)
 
 
